@@ -4,7 +4,7 @@
    site by site, that no input reaches them (reader, read positions, arithmetic, send, lookup).
    Native-stack exhaustion of uncounted recursion (=, print on deep data) is behaviour of the
    runtime the model cannot exhibit: that part is decided on the binary only. *)
-From PL Require Import Data.ReaderProofs Data.ArithProofs Eval.Eval Eval.EvalRules Eval.SemProofs Eval.TotalityProofs.
+From PL Require Import Data.ReaderProofs Data.ArithProofs Eval.Eval Eval.EvalRules Eval.SemProofs Eval.TotalityProofs Eval.NativesTotal Eval.ModulesPersist Eval.EvalTotal Eval.Run Eval.PreludeState.
 From Coq Require Import String.
 Local Open Scope string_scope.
 Local Open Scope list_scope.
@@ -67,3 +67,44 @@ Print Assumptions C06_read_total.
 
 Example C06_wf_env_inhabited : wf_env (VCons (VCons (vsym "x") (VNum 1)) VNil) /\ symbols [vsym "x"; vsym "y"].
 Proof. split; [eapply wf_cons; [reflexivity|reflexivity|constructor]|repeat constructor; eexists; reflexivity]. Qed.
+
+(* ---- the whole table of primitives and the whole evaluator ---- *)
+
+(* every native of the GENERATED table, every argument list that passes its generated
+   validate_args! signature: a value, a signal or an abort - never a panic site.  [model_limit]
+   names the two places where the model itself gives up (file system access; a native-function
+   value whose name is not in the table, which the interpreter cannot construct). *)
+Theorem C06_no_primitive_panics : forall st name info sig args d st' site,
+  find_native name native_table = Some info -> n_sig info = Some sig -> validate name sig args = None ->
+  simple_native st name args d = Some (st', RPanic site) -> model_limit site.
+Proof. exact natives_never_panic. Qed.
+Print Assumptions C06_no_primitive_panics.
+
+(* the evaluator, the expander, eval, macroexpand, call-native-function and load-all: for EVERY
+   expression, environment, module, depth, amount of fuel, and every state whose current module
+   exists, no evaluation ends in a panic site *)
+Theorem C06_evaluator_never_panics : forall fuel,
+  (forall st e env m d st' site, cur_ok st -> eval_internal fuel st e env m d = (st', RPanic site) -> residual site) /\
+  (forall st e env m d st' site, cur_ok st -> eval_loop fuel st e env m d = (st', RPanic site) -> residual site) /\
+  (forall st e env m d ch st' site ch', cur_ok st -> expand_internal fuel st e env m d ch = (st', RPanic site, ch') -> residual site) /\
+  (forall st e env m d st' site, cur_ok st -> expand_completely fuel st e env m d = (st', RPanic site) -> residual site) /\
+  (forall st name args env d st' site, cur_ok st -> call_native fuel st name args env d = (st', RPanic site) -> residual site) /\
+  (forall st cursor source line col d st' site, cur_ok st -> load_loop fuel st cursor source line col d = (st', RPanic site) -> residual site).
+Proof. exact evaluator_never_panics. Qed.
+Print Assumptions C06_evaluator_never_panics.
+
+(* no module ever disappears and the current module always exists - which is why load-all's
+   set_current_module(old).unwrap() cannot fail *)
+Theorem C06_modules_persist : forall fuel st name args env d st' r,
+  call_native fuel st name args env d = (st', r) -> keeps st st'.
+Proof. exact persist_n. Qed.
+Print Assumptions C06_modules_persist.
+
+Example C06_initial_states_have_their_module : cur_ok init_state /\ cur_ok prelude_state.
+Proof. split; unfold cur_ok; vm_compute; discriminate. Qed.
+
+(* the residue of the evaluator-wide theorem, spelled out so that it cannot grow silently *)
+Theorem C06_residual_is : forall site, residual site <->
+  (site = "model: file system access is not modelled" \/ site = "model: native function value without a table entry") \/ site = "model: unknown native".
+Proof. intros site. unfold residual, model_limit. tauto. Qed.
+Print Assumptions C06_residual_is.
